@@ -461,7 +461,7 @@ func runRep(c *rt.Ctx, ins []*Input, dirs []*DirInput, reps int) {
 
 // at most one sample of the repetition leg and one of the directory leg, so that the (four) sample
 // slots of the evidence also show permutation cases.
-var repSamples, dirSamples, permSamples atomic.Int32
+var repSamples, dirSamples, permSamples, sameSamples atomic.Int32
 
 func sampleSlot(n *atomic.Int32, max int32) bool { return n.Add(1) <= max }
 
@@ -481,6 +481,7 @@ func run(c *rt.Ctx) {
 	dirs := DirInputs(c.Seed, nDirs(c))
 	t0 := time.Now()
 	runRep(c, ins, dirs, reps)
+	runSame(c, ins)
 	t1 := time.Now()
 	pstats := runPerm(c)
 	pstats["wall_s"] = time.Since(t1).Seconds()
@@ -491,6 +492,8 @@ func run(c *rt.Ctx) {
 		"(MarshalHCL of DSL graphs and of evaluated HCL) and hashed 20 times from fresh graphs while all workers share the package-level values: "+
 		"every output kind must be byte-identical in all runs; seeded directories (1–90 files): sum bytes of MemDir / named MemDir / LocalDir equal "+
 		"in all runs and for 4 seeded write orders, and Validate() accepts the sum file just written. "+
+		"(1b) same objects: per input, PlanChanges 5 times on the SAME change slice, Schema/RealmDiff + PlanChanges 5 times on the SAME two graphs, "+
+		"MarshalHCL(current/desired) of those graphs before and after: all identical (operations do not consume their inputs). "+
 		"(2) permutation: top-level blocks of HCL sources (every permutation when ≤5 blocks, else 50 seeded) as one document and split into "+
 		"several files: multiset of planned statements (cmd, comment, reverse) equal to the unpermuted source's, order-normalised dump of the "+
 		"evaluated graph equal, differ both ways empty, and for SQLite both plans executed on real go-sqlite3 databases with equal PRAGMA "+
@@ -584,6 +587,23 @@ func replay(c *rt.Ctx, raw json.RawMessage) {
 				fmt.Printf("VIOLATED: %s run %d: %s\n", m.kind, m.rep, firstDiff(m.a, m.b))
 			}
 			if len(mm) == 0 {
+				fmt.Println("held")
+			}
+			return
+		}
+		fmt.Println("input not found:", cs.Input)
+	case "same":
+		for _, in := range allInputs(cs.Seed, cs.NEdit) {
+			if in.Name != cs.Input {
+				continue
+			}
+			finds, _, stmts := oneSame(in)
+			fmt.Println("statements:", stmts)
+			for _, f := range finds {
+				c.Violation(f.key, f.what, cs, f.detail)
+				fmt.Println("VIOLATED:", f.key, f.what)
+			}
+			if len(finds) == 0 {
 				fmt.Println("held")
 			}
 			return
